@@ -67,7 +67,7 @@ func (fc *FuncCtx) load(fr *Frame, st *State, lv *LVal, pos token.Pos) Val {
 		st.assume(typeInv(lv.Typ, v, st.alloc))
 		return Val{T: v}
 	case lvElem:
-		v := Select(Select(st.H(fc.p, lv.Heap), SBase(lv.Slice)), Add(SOff(lv.Slice), lv.Idx))
+		v := At(Select(st.H(fc.p, lv.Heap), SBase(lv.Slice)), SOff(lv.Slice), lv.Idx)
 		st.assume(typeInv(lv.Typ, v, st.alloc))
 		return Val{T: v}
 	case lvGlobal:
